@@ -64,7 +64,10 @@ def write_replay(prop: str, ob: Obligation) -> tuple[str, bool, str]:
 
 def match_known(ob: Obligation, known: dict):
     for k in known.get("open", []):
-        if k.get("property") == ob.prop and fnmatch.fnmatchcase(ob.key, k["key"]):
+        if k.get("property") != ob.prop:
+            continue
+        pat = "^" + ".*".join(re.escape(p) for p in k["key"].split("*")) + "$"     # only '*' is a wildcard
+        if re.match(pat, ob.key):
             return k
     return None
 
